@@ -461,9 +461,9 @@ def main(tier):
     rep = common.Reporter(PROP)
     timeout_ms = 60000 if tier == "quick" else 600000
     items = [("errors", timeout_ms), ("mutation", timeout_ms), ("random", timeout_ms)]
-    ns_range = [1, 2, 3, 7, 10, 64, 1000, 2 ** 20, 2 ** 20 + 1] if tier == "quick" else \
+    ns_range = [1, 2, 3, 10, 64, 2 ** 20 + 1] if tier == "quick" else \
         list(range(1, 65)) + [100, 1000, 65535, 65536, 2 ** 20, 2 ** 20 + 1, 10 ** 6]
-    ns_uni = [1, 2, 3, 7, 10] if tier == "quick" else list(range(1, 65))
+    ns_uni = [1, 2, 3, 7] if tier == "quick" else list(range(1, 65))
     for n in ns_range:
         items.append(("range", n, timeout_ms))
     for n in ns_uni:
